@@ -40,7 +40,7 @@ for r in rows:
     base, origin, s = describe(r["name"])
     s = (s[:150] + "…") if len(s) > 150 else s
     s = s.replace("|", "/").replace("\n", " ")
-    target = base.split("-")[0] if base.startswith("C") else None
+    target = base.split("-")[0].rstrip("x") if base.startswith("C") else None
     tc = ""
     if target:
         tc = "yes" if target in r["caught"] else "**no**"
